@@ -11,7 +11,7 @@ from cryptography.exceptions import InvalidTag
 import h11
 
 from pyhap.accessory import get_topic
-from pyhap.const import HAP_REPR_AID, HAP_REPR_IID
+from pyhap.const import HAP_REPR_AID, HAP_REPR_IID, HAP_REPR_VALUE
 
 from .hap_crypto import HAPCrypto
 from .hap_event import create_hap_event
@@ -134,6 +134,12 @@ class HAPServerProtocol(asyncio.Protocol):
             self._event_timer = self.loop.call_later(
                 EVENT_COALESCE_TIME_WINDOW, self._send_events
             )
+
+    def discard_stale_event(self, aid: int, iid: int, value: Any) -> None:
+        """Drop a queued event that does not carry the given (current) value."""
+        queued = self._event_queue.get((aid, iid))
+        if queued is not None and queued.get(HAP_REPR_VALUE) != value:
+            del self._event_queue[(aid, iid)]
 
     def send_response(self, response: HAPResponse) -> None:
         """Send a HAPResponse object."""
